@@ -85,6 +85,69 @@ impl Arena {
         true
     }
 
+    /// A function with a generated, harmless prologue (1-3 instructions drawn from a small grammar
+    /// of what compilers put first: register moves, small adds, SSE moves, nops, endbr64, frame and
+    /// callee-saved pushes with matching pops), then `mov eax, id; <pops>; ret`.  Varies the bytes
+    /// an entry patch overwrites.  Returns the length written (<= 32) or 0 if it does not fit.
+    pub fn put_prologue_fn(&self, addr: usize, id: u32, seed: u64) -> usize {
+        let mut x = seed ^ 0x9E37_79B9_7F4A_7C15;
+        let mut next = || {
+            x ^= x << 13;
+            x ^= x >> 7;
+            x ^= x << 17;
+            x
+        };
+        let caller_saved = [0u8, 1, 2, 6, 7]; // rax rcx rdx rsi rdi
+        let mut code: Vec<u8> = vec![];
+        let mut epilogue: Vec<Vec<u8>> = vec![];
+        let n = 1 + (next() % 3) as usize;
+        let (mut pushed_rbx, mut pushed_rbp, mut sub_rsp) = (false, false, false);
+        for _ in 0..n {
+            match next() % 8 {
+                0 => {
+                    let dst = caller_saved[(next() % 5) as usize];
+                    let src = (next() % 8) as u8;
+                    code.extend_from_slice(&[0x48, 0x89, 0xC0 | (src << 3) | dst]);
+                }
+                1 => {
+                    let dst = caller_saved[(next() % 5) as usize];
+                    code.extend_from_slice(&[0x48, 0x83, 0xC0 | dst, next() as u8]);
+                }
+                2 => code.extend_from_slice(&[0x66, 0x0F, 0x6F, 0xC0 | (next() % 64) as u8]),
+                3 => code.extend_from_slice(if next() % 2 == 0 { &[0x0F, 0x1F, 0x40, 0x00][..] } else { &[0x66, 0x90][..] }),
+                4 if !pushed_rbx && !sub_rsp => {
+                    pushed_rbx = true;
+                    let src = (next() % 8) as u8;
+                    code.extend_from_slice(&[0x53, 0x48, 0x89, 0xC0 | (src << 3) | 3]);
+                    epilogue.push(vec![0x5B]);
+                }
+                5 if !pushed_rbp && !sub_rsp && code.is_empty() => {
+                    pushed_rbp = true;
+                    code.extend_from_slice(&[0x55, 0x48, 0x89, 0xE5]);
+                    epilogue.push(vec![0x5D]);
+                }
+                6 if code.is_empty() => code.extend_from_slice(&[0xF3, 0x0F, 0x1E, 0xFA]),
+                7 if !sub_rsp && !pushed_rbp => {
+                    sub_rsp = true;
+                    let k = [8u8, 24, 40][(next() % 3) as usize];
+                    code.extend_from_slice(&[0x48, 0x83, 0xEC, k]);
+                    epilogue.push(vec![0x48, 0x83, 0xC4, k]);
+                }
+                _ => code.push(0x90),
+            }
+        }
+        code.push(0xB8);
+        code.extend_from_slice(&id.to_le_bytes());
+        for e in epilogue.iter().rev() {
+            code.extend_from_slice(e);
+        }
+        code.push(0xC3);
+        if code.len() > 32 || !self.put(addr, &code) {
+            return 0;
+        }
+        code.len()
+    }
+
     /// text-like protection
     pub fn seal(&self) {
         unsafe { sys_mprotect(self.base, self.len, libc::PROT_READ | libc::PROT_EXEC) };
